@@ -265,11 +265,12 @@ class SymbolGraph(metaclass=SingletonMeta):
         """
         # a subclass that is reachable through several paths (diamond inheritance) is listed once per path
         classes = dict.fromkeys([type_] + recursive_subclasses(type_))
-        yield from (
-            instance.instance
-            for cls in classes
-            for instance in list(self._class_to_wrapped_instances[cls])
-        )
+        for cls in classes:
+            for wrapped_instance in list(self._class_to_wrapped_instances[cls]):
+                instance = wrapped_instance.instance
+                # an instance can be garbage collected while the instances are being consumed
+                if instance is not None:
+                    yield instance
 
     def get_wrapped_instance(self, instance: Any) -> Optional[WrappedInstance]:
         if isinstance(instance, WrappedInstance):
